@@ -175,8 +175,10 @@ func (g *vkUniverse) fan(parent *zonemodel.Zone, zone string, n int, replicaAddr
 
 const vkMaxReplicas = 12
 
-// vkBuild enumerates the grammar. thorough adds the tier-1 topologies.
-func vkBuild() *vkUniverse {
+// vkBuild enumerates the grammar. The thorough tier enlarges it (CNAME graphs on 4 names, every
+// assignment of behaviours to the 4 servers of a fan-out zone, the full clones x signatures x
+// denial-mode product, signed glueless graphs).
+func vkBuild(thorough bool) *vkUniverse {
 	g := &vkUniverse{u: zonemodel.NewUniverse(vkSeed), fanZone: map[string]int{}, sigMult: map[string]int{}, nsHosts: map[string][]string{}}
 	ec, ed := uint8(zonemodel.AlgECDSAP256), uint8(zonemodel.AlgED25519)
 	g.zone(zonemodel.ZoneSpec{Apex: ".", Mode: zonemodel.NSEC, Alg: ec})
@@ -201,7 +203,11 @@ func vkBuild() *vkUniverse {
 	// ---- A: CNAME graphs on <= 3 names, in one zone and split over two zones (signed).
 	ca, _ := g.zone(zonemodel.ZoneSpec{Apex: "ca.t.", Mode: zonemodel.NSEC, Alg: ed})
 	cb, _ := g.zone(zonemodel.ZoneSpec{Apex: "cb.t.", Mode: zonemodel.NSEC, Alg: ed})
-	for k := 1; k <= 3; k++ {
+	maxK := 3
+	if thorough {
+		maxK = 4
+	}
+	for k := 1; k <= maxK; k++ {
 		total := 1
 		for i := 0; i < k; i++ {
 			total *= k + 1
@@ -268,38 +274,47 @@ func vkBuild() *vkUniverse {
 
 	// ---- C: glueless NS dependency graphs on <= 3 zones (unsigned): zone i's only name server is
 	// a host of zone f(i); f(i) = i means in-bailiwick with glue.
-	for k := 1; k <= 3; k++ {
-		total := 1
-		for i := 0; i < k; i++ {
-			total *= k
-		}
-		for code := 0; code < total; code++ {
-			id := fmt.Sprintf("gk%dc%d", k, code)
-			apex := func(i int) string { return fmt.Sprintf("%sz%d.t.", id, i) }
-			f := make([]int, k)
-			c := code
+	gmodes := []zonemodel.Mode{zonemodel.Unsigned}
+	if thorough {
+		gmodes = append(gmodes, zonemodel.NSEC)
+	}
+	for _, gmode := range gmodes {
+		for k := 1; k <= 3; k++ {
+			total := 1
 			for i := 0; i < k; i++ {
-				f[i] = c % k
-				c /= k
+				total *= k
 			}
-			zs := make([]*zonemodel.Zone, k)
-			addrs := make([]string, k)
-			for i := 0; i < k; i++ {
-				host := "ns." + apex(i)
-				if f[i] != i {
-					host = fmt.Sprintf("nsfor%d.%s", i, apex(f[i]))
+			for code := 0; code < total; code++ {
+				id := fmt.Sprintf("gk%dc%d", k, code)
+				if gmode.Signed() {
+					id = fmt.Sprintf("gsk%dc%d", k, code)
 				}
-				zs[i], addrs[i] = g.zone(zonemodel.ZoneSpec{Apex: apex(i), Mode: zonemodel.Unsigned, NSHost: host})
-			}
-			var fs []string
-			for i := 0; i < k; i++ {
-				if f[i] != i {
-					zs[f[i]].Add(fmt.Sprintf("nsfor%d A %s", i, addrs[i]))
+				apex := func(i int) string { return fmt.Sprintf("%sz%d.t.", id, i) }
+				f := make([]int, k)
+				c := code
+				for i := 0; i < k; i++ {
+					f[i] = c % k
+					c /= k
 				}
-				fs = append(fs, fmt.Sprint(f[i]))
+				zs := make([]*zonemodel.Zone, k)
+				addrs := make([]string, k)
+				for i := 0; i < k; i++ {
+					host := "ns." + apex(i)
+					if f[i] != i {
+						host = fmt.Sprintf("nsfor%d.%s", i, apex(f[i]))
+					}
+					zs[i], addrs[i] = g.zone(zonemodel.ZoneSpec{Apex: apex(i), Mode: gmode, Alg: ed, NSHost: host})
+				}
+				var fs []string
+				for i := 0; i < k; i++ {
+					if f[i] != i {
+						zs[f[i]].Add(fmt.Sprintf("nsfor%d A %s", i, addrs[i]))
+					}
+					fs = append(fs, fmt.Sprint(f[i]))
+				}
+				zs[0].Add("w A 10.12.20.1")
+				add(vkTopo{ID: "glueless/" + id, Family: "glueless", QName: "w." + apex(0), Arg: strings.Join(fs, ""), V6: !gmode.Signed(), Signed: gmode.Signed()})
 			}
-			zs[0].Add("w A 10.12.20.1")
-			add(vkTopo{ID: "glueless/" + id, Family: "glueless", QName: "w." + apex(0), Arg: strings.Join(fs, ""), V6: true})
 		}
 	}
 
@@ -363,11 +378,42 @@ func vkBuild() *vkUniverse {
 		if n == 1 {
 			add(vkTopo{ID: "fanout/n1-healthy", Family: "fanout", QName: "w." + apex})
 		}
+		if n == 4 && thorough {
+			// every assignment of {healthy, refused, servfail, drop} to the four servers
+			letters := []string{"healthy", "refused", "servfail", "drop"}
+			for code := 0; code < 256; code++ {
+				var beh []vkBeh
+				var name []string
+				c, healthy, drops := code, 0, 0
+				for i := 0; i < 4; i++ {
+					k := letters[c%4]
+					c /= 4
+					name = append(name, k[:1])
+					if k == "healthy" {
+						healthy++
+						continue
+					}
+					if k == "drop" {
+						drops++
+					}
+					beh = append(beh, vkBeh{Server: srv[i], Kind: k})
+				}
+				tp := vkTopo{ID: "fanout/n4-mix-" + strings.Join(name, ""), Family: "fanout", QName: "w." + apex, Beh: beh, Slow: drops > 0, Multi: true, Tier: 1}
+				if healthy == 0 {
+					tp.Dead = apex
+				}
+				add(tp)
+			}
+		}
 	}
 
 	// ---- F: DNSSEC work: 1..4 same-key-tag clones of the ZSK, 1..4 RRSIGs per RRset (NSEC zones);
 	// NSEC3 iterations 0 / 150 / 151; DS RRsets with many same-tag DS records and cloned KSKs.
-	for c := 1; c <= 4; c++ {
+	minC := 1
+	if thorough {
+		minC = 0
+	}
+	for c := minC; c <= 4; c++ {
 		for s := 1; s <= 4; s++ {
 			apex := fmt.Sprintf("k%ds%d.t.", c, s)
 			z, _ := g.zone(zonemodel.ZoneSpec{Apex: apex, Mode: zonemodel.NSEC, Alg: ed})
@@ -383,7 +429,11 @@ func vkBuild() *vkUniverse {
 		}
 	}
 	for _, it := range []uint16{0, 150, 151} {
-		for _, cs := range [][2]int{{0, 1}, {2, 4}} {
+		n3 := [][2]int{{0, 1}, {2, 4}}
+		if thorough {
+			n3 = [][2]int{{0, 1}, {0, 4}, {2, 1}, {2, 4}, {4, 1}, {4, 4}}
+		}
+		for _, cs := range n3 {
 			apex := fmt.Sprintf("i%dk%ds%d.t.", it, cs[0], cs[1])
 			z, _ := g.zone(zonemodel.ZoneSpec{Apex: apex, Mode: zonemodel.NSEC3, Alg: ed, Iter: it, Salt: "ab"})
 			zsk := zonemodel.GenKey(vkSeed, apex, "zsk", ed, 256)
